@@ -63,7 +63,11 @@ def run(P, chk, tier):
                  fd.detail if fd else stt)
     for fd in A.findings:
         if not any(id(n) == id(fd.node) for n, _, _, _ in A.log):
-            chk.site(r1, dd, ir.loc(fd.node), pp(fd.node)[:70], False, fd.detail)
+            if getattr(fd, "kind", None) == "contract":
+                # a helper the analysis has no contract for: its reads are not judged (neither safe nor a violation)
+                chk.undecided(r1, dd, ir.loc(fd.node), pp(fd.node)[:70], fd.detail)
+            else:
+                chk.site(r1, dd, ir.loc(fd.node), pp(fd.node)[:70], False, fd.detail)
 
     # ------------------------------------------------------------------ R2
     r2 = chk.rule("C12.R2", "name reader stays inside the datagram",
